@@ -9,6 +9,7 @@ package fasthttp
 import (
 	"bufio"
 	"bytes"
+	"crypto/tls"
 	"encoding/json"
 	"fmt"
 	"io"
@@ -37,6 +38,7 @@ type csCfg struct {
 	KeepHij  bool `json:"keepHij"`
 	PerIP    bool `json:"perIP"`
 	Busy     bool `json:"busy"`
+	TLS      bool `json:"tls"`
 }
 
 type csResp struct {
@@ -342,7 +344,11 @@ func csRunScaled(b *csBeh, scale int) *csObs {
 		ln = fasthttputil.NewInmemoryListener()
 		wl := &csListener{Listener: ln, got: make(chan *csConn, 1), tcpAddr: b.Cfg.PerIP, firstIsBlocker: b.Cfg.Busy}
 		serveDone = make(chan struct{})
-		go func() { s.Serve(wl); close(serveDone) }() //nolint:errcheck
+		var srvLn net.Listener = wl
+		if b.Cfg.TLS {
+			srvLn = tls.NewListener(wl, csTLSConfig())
+		}
+		go func() { s.Serve(srvLn); close(serveDone) }() //nolint:errcheck
 		if b.Cfg.Busy {
 			// another connection holds the server's only concurrency slot
 			bc, err := ln.Dial()
@@ -386,7 +392,16 @@ func csRunScaled(b *csBeh, scale int) *csObs {
 		srvConn.Store(sc)
 		cli = pc.Conn2()
 		serveDone = make(chan struct{})
-		go func() { s.ServeConn(sc); close(serveDone) }() //nolint:errcheck
+		var given net.Conn = sc
+		if b.Cfg.TLS {
+			given = tls.Server(sc, csTLSConfig())
+		}
+		go func() { s.ServeConn(given); close(serveDone) }() //nolint:errcheck
+	}
+	if b.Cfg.TLS {
+		// the TLS handshake is started by the client's first write (a client that never writes
+		// never even handshakes); handshake bytes are not request bytes
+		cli = tls.Client(cli, &tls.Config{InsecureSkipVerify: true}) //nolint:gosec
 	}
 	cr := &csCountReader{r: cli}
 	br := bufio.NewReader(cr)
@@ -597,6 +612,27 @@ func csHasKind(b *csBeh, kinds ...string) bool {
 	return false
 }
 
+var (
+	csTLSOnce sync.Once
+	csTLSCfg  *tls.Config
+)
+
+// csTLSConfig returns a server TLS configuration with a certificate generated at run time.
+func csTLSConfig() *tls.Config {
+	csTLSOnce.Do(func() {
+		certPEM, keyPEM, err := GenerateTestCertificate("example.com")
+		if err != nil {
+			panic(err)
+		}
+		cert, err := tls.X509KeyPair(certPEM, keyPEM)
+		if err != nil {
+			panic(err)
+		}
+		csTLSCfg = &tls.Config{Certificates: []tls.Certificate{cert}} //nolint:gosec
+	})
+	return csTLSCfg
+}
+
 // csTimeout: scenarios in which the client goes silent need the server's timeouts
 func csTimeout(b *csBeh) time.Duration {
 	stalls := b.ClientStalled
@@ -648,7 +684,7 @@ type csNopLogger struct{}
 func (csNopLogger) Printf(string, ...any) {}
 
 func csCfgKey(c csCfg) string {
-	return fmt.Sprintf("dk=%v maxReqs=%d rmu=%v serve=%v keepHij=%v perIP=%v busy=%v", c.Dk, c.MaxReqs, c.Rmu, c.ViaServe, c.KeepHij, c.PerIP, c.Busy)
+	return fmt.Sprintf("dk=%v maxReqs=%d rmu=%v serve=%v keepHij=%v perIP=%v busy=%v tls=%v", c.Dk, c.MaxReqs, c.Rmu, c.ViaServe, c.KeepHij, c.PerIP, c.Busy, c.TLS)
 }
 
 func csReqKey(r csReq) string {
